@@ -10,8 +10,12 @@ import (
 	"io"
 	"sort"
 
+	"github.com/lni/dragonboat/v4/config"
+	"github.com/lni/dragonboat/v4/internal/logdb"
+	"github.com/lni/dragonboat/v4/internal/logdb/kv/pebble"
 	"github.com/lni/dragonboat/v4/internal/rsm"
 	"github.com/lni/dragonboat/v4/internal/server"
+	"github.com/lni/dragonboat/v4/internal/vfs"
 	"github.com/lni/dragonboat/v4/raftio"
 	pb "github.com/lni/dragonboat/v4/raftpb"
 	sm "github.com/lni/dragonboat/v4/statemachine"
@@ -34,6 +38,28 @@ type memStore struct {
 	// blobs are the snapshot images on the replica's "disk"
 	blobs map[uint64][]byte
 	saves int
+	// real, when set, is a real log store (sharded Pebble on an in-memory file system) that
+	// receives every write and answers every read of the replica; the fields above then are the
+	// shadow the monitors use. It is closed and reopened at every restart of the replica.
+	real   raftio.ILogDB
+	realFS vfs.IFS
+}
+
+// openReal (re)opens the real log store of the replica.
+func (s *memStore) openReal() {
+	if s.realFS == nil {
+		return
+	}
+	if s.real != nil {
+		must(s.real.Close())
+		s.real = nil
+	}
+	cfg := config.NodeHostConfig{NodeHostDir: "/nh", RTTMillisecond: 10, RaftAddress: "a:1",
+		Expert: config.ExpertConfig{FS: s.realFS, LogDB: config.GetTinyMemLogDBConfig()}}
+	must(cfg.Prepare())
+	db, err := logdb.NewLogDB(cfg, nil, []string{"/nh/db"}, []string{"/nh/db"}, false, true, pebble.NewKVStore)
+	must(err)
+	s.real = db
 }
 
 var _ raftio.ILogDB = (*memStore)(nil)
@@ -76,7 +102,12 @@ func cloneEntry(e pb.Entry) pb.Entry {
 
 // SaveRaftState persists an update atomically (the engine's single synced
 // write batch).
-func (s *memStore) SaveRaftState(updates []pb.Update, _ uint64) error {
+func (s *memStore) SaveRaftState(updates []pb.Update, w uint64) error {
+	if s.real != nil {
+		if err := s.real.SaveRaftState(updates, w); err != nil {
+			return err
+		}
+	}
 	for _, ud := range updates {
 		if ud.ShardID != s.shardID || ud.ReplicaID != s.replicaID {
 			panic("raftsim harness: update for another replica")
@@ -104,6 +135,9 @@ func (s *memStore) SaveRaftState(updates []pb.Update, _ uint64) error {
 
 func (s *memStore) IterateEntries(ents []pb.Entry, size uint64, _ uint64, _ uint64,
 	low uint64, high uint64, maxSize uint64) ([]pb.Entry, uint64, error) {
+	if s.real != nil {
+		return s.real.IterateEntries(ents, size, s.shardID, s.replicaID, low, high, maxSize)
+	}
 	if !s.hasMax {
 		return ents, size, nil
 	}
@@ -122,6 +156,9 @@ func (s *memStore) IterateEntries(ents []pb.Entry, size uint64, _ uint64, _ uint
 }
 
 func (s *memStore) ReadRaftState(_ uint64, _ uint64, snapshotIndex uint64) (raftio.RaftState, error) {
+	if s.real != nil {
+		return s.real.ReadRaftState(s.shardID, s.replicaID, snapshotIndex)
+	}
 	if !s.hasMax && !s.hasState {
 		return raftio.RaftState{}, raftio.ErrNoSavedLog
 	}
@@ -145,6 +182,11 @@ func (s *memStore) ReadRaftState(_ uint64, _ uint64, snapshotIndex uint64) (raft
 }
 
 func (s *memStore) RemoveEntriesTo(_ uint64, _ uint64, index uint64) error {
+	if s.real != nil {
+		if err := s.real.RemoveEntriesTo(s.shardID, s.replicaID, index); err != nil {
+			return err
+		}
+	}
 	for i := range s.entries {
 		if i <= index {
 			delete(s.entries, i)
@@ -163,6 +205,11 @@ func (s *memStore) CompactEntriesTo(uint64, uint64, uint64) (<-chan struct{}, er
 }
 
 func (s *memStore) SaveSnapshots(updates []pb.Update) error {
+	if s.real != nil {
+		if err := s.real.SaveSnapshots(updates); err != nil {
+			return err
+		}
+	}
 	for _, ud := range updates {
 		if !pb.IsEmptySnapshot(ud.Snapshot) && ud.Snapshot.Index > s.snapshot.Index {
 			s.snapshot = wireSnapshot(ud.Snapshot)
@@ -172,6 +219,9 @@ func (s *memStore) SaveSnapshots(updates []pb.Update) error {
 }
 
 func (s *memStore) GetSnapshot(uint64, uint64) (pb.Snapshot, error) {
+	if s.real != nil {
+		return s.real.GetSnapshot(s.shardID, s.replicaID)
+	}
 	return s.snapshot, nil
 }
 
